@@ -353,6 +353,11 @@ def emitFunc (cs : Bool) (startid : Nat) (f : CSem2.Func) : Qbe.Func :=
 def nextBlockId (cs : Bool) (startid : Nat) (f : CSem2.Func) : Nat :=
   (bodyOut cs startid f).ctx.blockid
 
+/-- the functions of a program, emitted one after the other (`mkblock`'s counter runs on) -/
+def emitProg (cs : Bool) : Nat → List CSem2.Func → List Qbe.Func
+  | _, [] => []
+  | startid, f :: fs => emitFunc cs startid f :: emitProg cs (nextBlockId cs startid f) fs
+
 /-! ## Text with calls (`emitinst`, `case ICALL`) -/
 
 def renderCallArgs : List (Qbe.Ty × Val) → String
